@@ -132,8 +132,12 @@ Words == IF PoolSel = "cmd"
          THEN << "a", "aa", "a.a", "a a", "aa@", "a.~", "a\\@", "a\\~", "@a", "a@a", "xa", "a@", "x~", "@" >>
          ELSE << "a", "ab", "b.a", "ba@", "a b" >>
 
-PfxPool == << RT("a", One(La)), RT("[ab]", One(Cls({"a", "b"}))) >>
-SfxPool == << RT("b", One(Lb)), RT("a*", One(Q("star", La))) >>
+\* prefix and suffix lines; in the hygiene pool their text needs every clean-up pass, also when the
+\* file has no other line (the passes run on prefixes + body + suffixes, whatever the body is)
+PfxPool == IF PoolSel = "hyg" THEN << RT("\"a", << <<Lit("\""), La>> >>), RT("\\\\", One(Lit("\\"))) >>
+           ELSE << RT("a", One(La)), RT("[ab]", One(Cls({"a", "b"}))) >>
+SfxPool == IF PoolSel = "hyg" THEN << RT("\\s", One(Cls({" "}))), RT("a*", One(Q("star", La))) >>
+           ELSE << RT("b", One(Lb)), RT("a*", One(Q("star", La))) >>
 
 (***************************************************************************)
 (* The vocabulary of source lines.  txt is the concrete line.              *)
